@@ -33,8 +33,8 @@ class P:
     """expr := cond ; cond := cmp ('?' expr ':' expr)? ; cmp := sum (relop sum)? ;
     sum := prod (('+'|'-') prod)* ; prod := un ('*' un)* ; un := '-' un | atom"""
 
-    def __init__(self, toks, env):
-        self.t, self.i, self.env = toks, 0, env
+    def __init__(self, toks, env, q=False):
+        self.t, self.i, self.env, self.q = toks, 0, env, q
 
     def peek(self):
         return self.t[self.i] if self.i < len(self.t) else None
@@ -69,6 +69,12 @@ class P:
                 return ("bool", "(optype_eqb %s %s)" % (a[1], b[1]))
             if a[0] != "Z" or b[0] != "Z":
                 raise TranslateError("comparison of non-integers in %r" % self.t)
+            if self.q:
+                m = {"==": "(Qeqb %s %s)", "!=": "(negb (Qeqb %s %s))", "<": "(Qltb %s %s)", "<=": "(Qleb %s %s)"}.get(op)
+                if m is None:
+                    m = {">": "(Qltb %s %s)", ">=": "(Qleb %s %s)"}[op]
+                    return ("bool", m % (b[1], a[1]))
+                return ("bool", m % (a[1], b[1]))
             m = {"==": "(%s =? %s)", "!=": "(negb (%s =? %s))", "<": "(%s <? %s)", "<=": "(%s <=? %s)",
                  ">": "(%s >? %s)", ">=": "(%s >=? %s)"}[op]
             return ("bool", m % (a[1], b[1]))
@@ -113,7 +119,7 @@ class P:
             self.eat("(")
             e = self.expr()
             self.eat(")")
-            return ("Z", "(Z.abs %s)" % e[1])
+            return ("Z", ("(Qabs %s)" if self.q else "(Z.abs %s)") % e[1])
         if re.fullmatch(r"\d+", tk):
             return ("Z", tk)
         if tk.startswith("OpType::"):
@@ -126,8 +132,8 @@ class P:
         raise TranslateError("unknown identifier %r in %r" % (tk, self.t))
 
 
-def tr(src, env, want):
-    p = P(tokenize(src), env)
+def tr(src, env, want, q=False):
+    p = P(tokenize(src), env, q)
     k, txt = p.expr()
     if p.peek() is not None:
         raise TranslateError("trailing tokens in %r" % src)
@@ -148,7 +154,7 @@ def generate(repo):
     sh = open(os.path.join(repo, "src/shared.h")).read()
     body = br[br.index("Manifold::Impl Boolean3::Result(OpType op) const"):]
     out = ["(* GENERATED by translate/c02_consts.py from src/boolean_result.cpp and src/shared.h -- do not edit *)",
-           "From Coq Require Import ZArith Bool List.", "From MV Require Import Geo.WindingDefs.",
+           "From Coq Require Import ZArith QArith Qabs Bool List.", "From MV Require Import Geo.WindingDefs Geo.QOps.",
            "Local Open Scope Z_scope.", "",
            "Definition optype_eqb (a b : optype) : bool :=",
            "  match a, b with Add, Add | Subtract, Subtract | Intersect, Intersect => true | _, _ => false end.", ""]
@@ -195,6 +201,13 @@ def generate(repo):
     raw["withSign"] = e
     out.append("Definition gen_withSign (pos : bool) (v : Z) : Z := %s.   (* %s *)"
                % (tr(e.replace(b_, "pos", 1) if b_ != "pos" else e, {"pos": ("bool", "pos"), v_: ("Z", "v")}, "Z"), e))
+    # the same two functions over Q (used by the exact port of the boolean3.cpp kernels, Geo/KernelDefs.v)
+    p, q, d, e = find(r"inline\s+bool\s+Shadows\(\s*double\s+(\w+)\s*,\s*double\s+(\w+)\s*,\s*double\s+(\w+)\s*\)\s*\{\s*return\s+([^;]+);", sh, "Shadows")
+    out.append("Definition gen_shadowsQ (p q dir : Q) : bool := %s%%Q.   (* %s *)"
+               % (tr(e, {p: ("Z", "p"), q: ("Z", "q"), d: ("Z", "dir")}, "bool", q=True), e))
+    b_, v_, e = find(r"inline\s+double\s+withSign\(\s*bool\s+(\w+)\s*,\s*double\s+(\w+)\s*\)\s*\{\s*return\s+([^;]+);", sh, "withSign")
+    out.append("Definition gen_withSignQ (pos : bool) (v : Q) : Q := %s%%Q.   (* %s *)"
+               % (tr(e.replace(b_, "pos", 1) if b_ != "pos" else e, {"pos": ("bool", "pos"), v_: ("Z", "v")}, "Z", q=True), e))
     verts, tris = cube_table(repo)
     raw["cube"] = (verts, tris)
     out.append("Definition gen_cube_vert_bits : list (Z * Z * Z) := (%s)%%list.   (* impl.cpp Shape::Cube vertPos *)"
